@@ -189,7 +189,10 @@ pub fn run_c11(w: &mut W) {
 pub fn run_c12(w: &mut W) {
     for idx in w.indices() {
         let mut rng = w.begin_case(idx, "filter");
-        let cfg = seq_cfg(&mut rng);
+        let mut cfg = seq_cfg(&mut rng);
+        // a third of the streams use the RFC 3954 header count (records, not flowsets): where such a
+        // V9 packet ends inside a chain is the library's own business, but it must not depend on S
+        cfg.count_is_flowsets = rng.chance(2, 3);
         let mut ex = Exporter::new();
         // common prior history (all versions allowed)
         let prior: Vec<Vec<u8>> = (0..rng.usize(4)).map(|_| seq_packet(&mut rng, &mut ex, &cfg, &w.pools).wire()).collect();
@@ -256,7 +259,28 @@ pub fn run_c12(w: &mut W) {
             let all: std::collections::HashSet<u16> = super::common::all_versions();
             let acct = match account(&buf, &rb, &all) {
                 Ok(a) => a,
-                Err(_) => return Ok(()), // C02's domain
+                Err(_) => {
+                    // The all-allowed result does not decompose the buffer (C02's domain), so byte
+                    // offsets are unknown - but each element still says which version it is: the
+                    // result under S must be the all-allowed result up to the first element whose
+                    // version is not in S (results only; the cache comparison needs offsets).
+                    let ver = |e: &NetflowPacket| -> Option<u16> {
+                        match e {
+                            NetflowPacket::V5(_) => Some(5),
+                            NetflowPacket::V7(_) => Some(7),
+                            NetflowPacket::V9(_) => Some(9),
+                            NetflowPacket::IPFix(_) => Some(10),
+                            NetflowPacket::Error(x) if x.remaining.len() >= 2 => Some(u16::from_be_bytes([x.remaining[0], x.remaining[1]])),
+                            _ => None,
+                        }
+                    };
+                    let cut = rb.iter().position(|e| ver(e).map(|v| !s.contains(&v)).unwrap_or(false)).unwrap_or(rb.len());
+                    w.rep.count("pairs_compared_without_offsets", 1);
+                    if canon(&rb[..cut]) != canon(&ra) {
+                        return Err(div("filter/results", "differs", format!("allowed {:?}: got {:?}, the all-allowed parser returns {:?} and its first element of a disallowed version is number {}", s, ra.iter().map(kind).collect::<Vec<_>>(), rb.iter().map(kind).collect::<Vec<_>>(), cut)));
+                    }
+                    return Ok(());
+                }
             };
             // element index and byte offset of the first element whose version is not in S
             let mut cut_i = rb.len();
